@@ -11,6 +11,11 @@ import terms as T
 from ops import binop, unop, int_cast, flatten, unflatten, transmute, ptr_addr, unwrap_ptr, wrap_ptr
 
 
+def drop_term(v):
+    from interp import drop_term as _d
+    return _d(v)
+
+
 def install(I):
     from interp import Unsupported, Diverge, RawPtr, Loc
     m = I.models
@@ -222,7 +227,17 @@ def install(I):
             raise Unsupported('copy between %r and %r' % (src, dst))
         t = callee['targs'][0] if callee and callee.get('targs') else None
         if cnt.const is None:
-            raise Unsupported('copy_nonoverlapping with abstract count')
+            # abstract element count: every element that may be copied is read at an abstract index and weakly written
+            idx = AInt(cnt.w, 0, max(cnt.hi - 1, 0))
+            q = ptr_offset(src, idx)
+            loc = I.deref(q, t if q.view is None else q.view, st)
+            if loc.ty is None:
+                loc.ty = t
+            v = drop_term(I.read(st, loc))
+            q = ptr_offset(dst, idx)
+            loc = I.deref(q, t if q.view is None else q.view, st)
+            I.write(st, loc, adapt_like(v, I.read_opt(st, loc)))
+            return UNIT
         vals = []
         for i in range(cnt.const):
             q = ptr_offset(src, I.usize(i)) if cnt.const > 1 or src.elem is not None else src
